@@ -178,6 +178,10 @@ func rejectedProperly(st *execState) bool {
 	switch st.spec.Wrapper {
 	case "fallback":
 		return st.val == fbVal && st.err == nil
+	case "timeout-fires":
+		// the 2 ms timer may beat even an immediate rejection when the machine stalls: what matters is that the function
+		// was never reached
+		return errors.Is(st.err, circuitbreaker.ErrOpen) || errors.Is(st.err, timeout.ErrExceeded)
 	default:
 		return errors.Is(st.err, circuitbreaker.ErrOpen)
 	}
